@@ -144,6 +144,18 @@ theorem txid_is_commit {lock : Nat} {ss : List Step} {w : World}
   rw [← txnsOf_take_prefix, ← ht]
   exact h
 
+/-- **Exactly one state.** Two restores to the same TXID through different valid plans over
+    the replicated files (the level-0 chain alone, a compacted file, …) produce the same
+    database: a TXID never denotes two states.  (The engine's `txid-two-states` oracle is the
+    observable side of this statement, with the snapshot-level file as the second plan.) -/
+theorem txid_denotes_one_state {lock : Nat} {ss : List Step} {w : World}
+    (hok : RunOK lock World.init ss) (hr : run lock World.init ss = some w) (k : Nat) (hk : k ≤ ss.length)
+    {P1 P2 : List Ltx} {G1 G2 : Ltx} {img1 img2 : Db}
+    (hP1 : PlanChain lock [] (w.files.take k) P1) (hc1 : compact lock P1 = .ok G1) (hd1 : decodeDb lock G1 = .ok img1)
+    (hP2 : PlanChain lock [] (w.files.take k) P2) (hc2 : compact lock P2 = .ok G2) (hd2 : decodeDb lock G2 = .ok img2) :
+    img1.Same img2 :=
+  (txid_is_commit hok hr k hk hP1 hc1 hd1).trans (txid_is_commit hok hr k hk hP2 hc2 hd2).symm
+
 /-- **Monotone.** A higher TXID corresponds to the same or a later commit. -/
 theorem txid_monotone (ss : List Step) {k1 k2 : Nat} (h : k1 ≤ k2) :
     (txnsOf (ss.take k1)).length ≤ (txnsOf (ss.take k2)).length := by
